@@ -14,61 +14,44 @@ From Raven Require Import Base.GoStr Model.BlobCodec Model.Blobs Spec.BlobSpec
   Proof.BlobsInv Proof.Blobs Proof.BlobsWitness.
 Import ListNotations.
 
-(** (a)+(d) For every history, every writer/reader configuration and every
-    fault oracle: a read outside the de-duplication class either yields exactly
-    the part's own octets, or is reported as an error and then the backend did
-    fail for this read ([read_failed]: the blob lives in the object store and
-    the reader has no S3, or the GET failed, or the object is gone).  Since the
-    repairs 12a5042 (read errors) and 573e876 (a part is linked to a blob only
-    if the blob holds its exact octets) the only excluded rows are those of
-    the residual class EmptyPartS3Blob — see c15_residual_class_is_empty_s3 and
-    the unconditional c15_read_own_octets_nonempty below. *)
+(** (a)+(d) UNCONDITIONALLY: for every history, every stored part (every
+    encoding / wrapping / de-duplication pattern, empty parts included), every
+    writer/reader configuration and every fault oracle, a read either yields
+    exactly the part's own octets, or is reported as an error and then the
+    backend did fail for this read ([read_failed]: the blob lives in the object
+    store and the reader has no S3, or the GET failed, or the object is gone).
+    (Repairs in /repo: 12a5042 read errors, 573e876 + 03ae0ff a part is linked
+    to a blob only if the blob holds its exact octets.) *)
 Theorem c15_read_own_octets :
   forall (key : str -> str -> str) (okey : str -> str),
   (forall a b, okey a = okey b -> a = b) -> (forall a, okey a <> []) ->
   forall (evs : list event) (m k : nat) (row : partrow) (reader_s3 : bool) (o : oracle),
   row_of (run key okey evs) m k = Some row ->
-  classify okey (run key okey evs) row = None ->
   spec_read (r_own row) (read_failed reader_s3 (run key okey evs) row o)
             (rd (read_part reader_s3 (run key okey evs) row o)).
 Proof. exact read_own_octets. Qed.
 Print Assumptions c15_read_own_octets.
 
-(** (a)+(d) UNCONDITIONALLY for every non-empty part: every history, every
-    encoding / wrapping / de-duplication pattern, every configuration pair,
-    every fault oracle. *)
-Theorem c15_read_own_octets_nonempty :
-  forall (key : str -> str -> str) (okey : str -> str),
-  (forall a b, okey a = okey b -> a = b) -> (forall a, okey a <> []) ->
-  forall (evs : list event) (m k : nat) (row : partrow) (reader_s3 : bool) (o : oracle),
-  row_of (run key okey evs) m k = Some row -> r_own row <> [] ->
-  spec_read (r_own row) (read_failed reader_s3 (run key okey evs) row o)
-            (rd (read_part reader_s3 (run key okey evs) row o)).
-Proof. exact read_own_octets_nonempty. Qed.
-Print Assumptions c15_read_own_octets_nonempty.
-
-(** the residual class is exactly: an EMPTY part linked to an S3-form blob *)
-Theorem c15_residual_class_is_empty_s3 :
-  forall (key : str -> str -> str) (okey : str -> str), (forall a, okey a <> []) ->
-  forall evs m k row,
-  row_of (run key okey evs) m k = Some row ->
-  classify okey (run key okey evs) row = Some EmptyPartS3Blob ->
-  r_own row = [] /\
-  exists id b kk, r_blob row = Some id /\ get_blob (w_blobs (run key okey evs)) id = Some b /\ b_form b = FS3 kk.
-Proof. exact residual_class_is_empty_s3. Qed.
-Print Assumptions c15_residual_class_is_empty_s3.
-
-(** no read of a non-empty part ever yields foreign or silently empty octets:
-    own octets, or an error. *)
+(** no read ever yields foreign or silently empty octets: own octets, or an error. *)
 Theorem c15_read_never_foreign :
   forall (key : str -> str -> str) (okey : str -> str),
   (forall a b, okey a = okey b -> a = b) -> (forall a, okey a <> []) ->
   forall evs m k row reader_s3 o,
-  row_of (run key okey evs) m k = Some row -> r_own row <> [] ->
+  row_of (run key okey evs) m k = Some row ->
   rd (read_part reader_s3 (run key okey evs) row o) = Some (r_own row) \/
   rd (read_part reader_s3 (run key okey evs) row o) = None.
 Proof. exact read_never_foreign. Qed.
 Print Assumptions c15_read_never_foreign.
+
+(** every part row that points at a blob points at a blob that holds the
+    part's own text (local content, or the object named by the text's hash) *)
+Theorem c15_linked_blob_holds_own :
+  forall (key : str -> str -> str) (okey : str -> str), (forall a, okey a <> []) ->
+  forall evs m k row id,
+  row_of (run key okey evs) m k = Some row -> r_blob row = Some id ->
+  exists b, get_blob (w_blobs (run key okey evs)) id = Some b /\ form_is_own okey (b_form b) (r_own row) = true.
+Proof. exact linked_blob_holds_own. Qed.
+Print Assumptions c15_linked_blob_holds_own.
 
 (** (d) in EVERY state (reachable or not, any class): a backend failure while
     reading is reported as an error ... *)
@@ -84,7 +67,6 @@ Theorem c15_error_only_if_failed :
   (forall a b, okey a = okey b -> a = b) -> (forall a, okey a <> []) ->
   forall evs m k row reader_s3 o,
   row_of (run key okey evs) m k = Some row ->
-  classify okey (run key okey evs) row = None ->
   rd (read_part reader_s3 (run key okey evs) row o) = None ->
   read_failed reader_s3 (run key okey evs) row o = true.
 Proof. exact error_only_if_failed. Qed.
@@ -162,20 +144,22 @@ Theorem c15_give_back_keeps_row :
 Proof. exact give_back_keeps_row. Qed.
 Print Assumptions c15_give_back_keeps_row.
 
-(** ---- where raven still violates the property: the residual of 573e876,
-    witness on the model instantiated with the Go decoders *)
-Theorem c15_refuted_empty_part_s3_blob :
-  gclass wit_empty 1 0 = Some EmptyPartS3Blob /\
+(** ---- no finding class is left.  Regression examples: the former witnesses
+    satisfy the spec, the old observables do not. *)
+Example c15_empty_part_s3_blob_repaired :
   gown wit_empty 1 0 = Some [] /\
-  gread true wit_empty 1 0 [] = Some (Some crlf) /\
-  violates true wit_empty 1 0 [] = true.
-Proof. exact refuted_empty_part_s3_blob. Qed.
-Print Assumptions c15_refuted_empty_part_s3_blob.
+  gread true wit_empty 1 0 [] = Some (Some []) /\
+  gread false wit_empty 1 0 [] = Some (Some []) /\
+  violates true wit_empty 1 0 [] = false /\
+  map b_refs (w_blobs (grun wit_empty)) = [1].
+Proof. exact empty_part_s3_blob_repaired. Qed.
+
+Example c15_old_empty_part_violates_spec : spec_read_ok [] false (Some crlf) = false.
+Proof. exact old_empty_part_violates_spec. Qed.
 
 (** the former witness of DedupEncoding (K-dedup) now satisfies the spec, and
     the old observable does not — regression examples *)
 Example c15_dedup_encoding_repaired :
-  gclass wit_dedup 1 0 = None /\
   gown wit_dedup 1 0 = Some (S_ "QUJDRA==") /\
   gread false wit_dedup 1 0 [] = Some (Some (S_ "QUJDRA==")) /\
   violates false wit_dedup 1 0 [] = false /\
@@ -189,7 +173,6 @@ Proof. exact old_dedup_violates_spec. Qed.
     (the read is an error), and the old observable (empty string, no error)
     does not — regression examples *)
 Example c15_config_mismatch_is_error :
-  gclass wit_config 0 0 = None /\
   gfailed false wit_config 0 0 [] = true /\
   gread false wit_config 0 0 [] = Some None /\
   violates false wit_config 0 0 [] = false /\
@@ -222,6 +205,5 @@ Example c15_faults_example :
   gread false wit_faults 0 0 [] = Some (Some (S_ "part one")) /\
   gread false wit_faults 1 0 [] = Some (Some (S_ "part two")) /\
   gread true wit_faults 2 1 [] = Some (Some (S_ "part three")) /\
-  map b_refs (w_blobs (grun wit_faults)) = [1; 2] /\
-  gclass wit_faults 2 1 = None.
+  map b_refs (w_blobs (grun wit_faults)) = [1; 2].
 Proof. exact faults_example. Qed.
